@@ -49,6 +49,8 @@ def glyph_name(codepoints):
         hash = hashlib.sha1()  # don't care if secure
         hash.update(name.encode("utf-8"))
         name = base64.b32encode(hash.digest()).decode("utf-8")
-    if not name[0].isalpha():
+    # also prefix names that natively start with "g_" (codepoint 'g' followed by more),
+    # otherwise (0x67, X) and (X,) collide whenever X's name starts with a non-letter
+    if not name[0].isalpha() or name.startswith("g_"):
         name = "g_" + name
     return name
